@@ -58,6 +58,10 @@ type scenario struct {
 	// 0xFFFF, as E37 prescribes: validation concerns data messages and must not touch the probes.
 	Validate int
 	Sess     uint16
+	// Redial (passive library end): while the session lives, something keeps dialling the port every
+	// third of the linktest interval (a restarted host, a monitoring probe); every such connection is
+	// refused (closed at once) and must leave the live session's probing untouched
+	Redial bool
 }
 
 type probe struct {
@@ -106,6 +110,7 @@ func genScenario(t *core.Tape) scenario {
 		sc.N = 2
 	}
 	sc.Prologue = t.Weighted("scn", 4, 1, 1)
+	sc.Redial = !sc.Active && t.Choose("scn", 3) == 0
 	sc.Sess = 0xFFFF
 	if sc.Validate = t.Weighted("scn", 3, 1, 1); sc.Validate != 0 {
 		sc.Sess = uint16(1 + t.Choose("scn", 32766))
@@ -195,7 +200,7 @@ func (h *harness) describe() map[string]any {
 	sc := h.sc
 
 	return map[string]any{"script": scriptNames[sc.Script], "active": sc.Active, "equip": sc.Equip, "interval": sc.I.String(), "T6": sc.T6.String(), "threshold": sc.N, "suppression": sc.Supp, "prologue": []string{"none", "previous generation dropped by the linktest", "previous generation lost to a failed W-bit write"}[sc.Prologue], "life": lifeNames[sc.Life], "reselect": sc.Reselect,
-		"silentAt": sc.SilentAt.String(), "duration": sc.Dur.String(), "rspDelay": sc.RspDelay.String(), "sessionValidation": []string{"off", "on", "switched on at run time"}[sc.Validate], "session": sc.Sess, "appSends": len(sc.Traffic), "peerData": len(sc.PeerData)}
+		"silentAt": sc.SilentAt.String(), "duration": sc.Dur.String(), "rspDelay": sc.RspDelay.String(), "sessionValidation": []string{"off", "on", "switched on at run time"}[sc.Validate], "session": sc.Sess, "redialWhileLive": sc.Redial, "appSends": len(sc.Traffic), "peerData": len(sc.PeerData)}
 }
 
 // monitor starts the script once the session is Selected.
@@ -219,6 +224,21 @@ func (h *harness) monitor() {
 		w.Probe("session_validation_switched_on_at_run_time")
 	}
 	h.selAt = w.Now()
+	if sc.Redial {
+		var redial func()
+		redial = func() {
+			if h.stop || h.c == nil || h.c.L.A.ClosedAt >= 0 || w.Now() >= h.endAt {
+				return
+			}
+			if h.r.N.Listening(rig.Addr) {
+				if c2 := h.r.P.Connect(rig.Addr); c2 != nil {
+					w.Fault("second-connection-while-the-session-lives")
+				}
+			}
+			w.After(sc.I/3, "redial", redial)
+		}
+		w.After(sc.I/3, "redial", redial)
+	}
 	h.endAt = h.selAt + sc.Dur
 	trafficUntil := h.endAt
 	switch sc.Script {
